@@ -718,12 +718,18 @@ class FileScanHelper:
             pragma_token = cast(PragmaToken, new_tokens[-1])
             # Move the pragmas starting at the end they are moving towards, so that a
             # moved pragma never lands on a line number that has yet to be moved.
+            # Pragmas with the alternate prefix are kept under the negative of their
+            # line number.
             for pragma_line_number in sorted(
-                pragma_token.pragma_lines.keys(), reverse=line_number_delta > 0
+                pragma_token.pragma_lines.keys(),
+                key=abs,
+                reverse=line_number_delta > 0,
             ):
-                if pragma_line_number > next_replacement.end_token.line_number:
+                if abs(pragma_line_number) > next_replacement.end_token.line_number:
+                    new_line_number = abs(pragma_line_number) + line_number_delta
                     pragma_token.adjust_pragma_line_number(
-                        pragma_line_number, pragma_line_number + line_number_delta
+                        pragma_line_number,
+                        new_line_number if pragma_line_number > 0 else -new_line_number,
                     )
 
         actual_tokens.clear()
